@@ -1,6 +1,7 @@
 import GrinVerif.Lemmas.KvProg
 import GrinVerif.Lemmas.KvSpace
 import GrinVerif.Lemmas.KvResize
+import GrinVerif.Lemmas.TxCount
 import GrinVerif.Lemmas.ChainStoreProg
 /-! # C18 — database batches are atomic, isolated and survive growth of the map
 
@@ -449,6 +450,133 @@ example :
     batchStart (rinit 1048576 1048576) 1000000 0 1 = rinit 2097152 1048576 ∧
     (batchStart (rinit 1048576 1048576) 1000000 1 1).mapSize = 1048576 ∧
     (settle (batchStart (rinit 1048576 1048576) 1000000 1 1)).mapSize = 2097152 := by decide
+
+
+/-! ## per-thread nesting depth of store transactions (`THREAD_TX_COUNTS`) while a resize is pending
+
+Model `Model/TxCount.lean` (shared with C17's counter theorems): `enter_tx` lets a thread pass
+while a resize is pending iff the thread's own nesting depth is positive. -/
+section nesting
+open TxCount
+
+/-- After any valid interleaving of the atomic alphabet (enters, leaves, resize requests, resizes;
+any number of threads, any nesting), the nesting depth the store keeps for a thread equals what
+the schedule says the thread has open (its enters minus its leaves) — so a thread counts as
+"inside a transaction" exactly while it holds one: completing nested operations (a lookup, a
+nested iterator, a child batch) under a long-lived transaction leaves it inside — and the global
+counter is the sum of the depths. -/
+theorem nested_depth_tracks_open (threads : Nat) (acts : List Act) (s : TxCount.St)
+    (hat : ∀ a ∈ acts, a.atomic = true) (hrun : runChecked (TxCount.init threads) acts = some s) :
+    (∀ t, depth s t = opensOf t acts) ∧
+    (∀ t, 0 < depth s t ↔ 0 < opensOf t acts) ∧
+    s.counter = openTotal s := by
+  have hd : ∀ t, depth s t = opensOf t acts := by
+    intro t
+    rw [depth_run acts _ s t hat hrun, depth_init]
+    rfl
+  exact ⟨hd, fun t => by rw [hd t], (inv_run acts _ s (inv_init threads) hat hrun).count⟩
+
+/-- A nested operation completed under a long-lived transaction does not change the depth:
+`enter t; leave t` appended to any valid atomic schedule in which `t` is inside a transaction is
+again valid (also while a resize is pending) and leaves every thread's depth as it was. -/
+theorem nested_op_keeps_depth (threads : Nat) (acts : List Act) (s : TxCount.St) (t : Nat)
+    (hat : ∀ a ∈ acts, a.atomic = true) (hrun : runChecked (TxCount.init threads) acts = some s)
+    (ht : t < threads) (hin : 0 < depth s t) :
+    ∃ s', runChecked (TxCount.init threads) (acts ++ [.enter t, .leave t]) = some s' ∧
+      (∀ u, depth s' u = depth s u) ∧ s'.counter = s.counter ∧ s'.resizing = s.resizing := by
+  have hlen : s.ths.length = threads := by
+    rw [length_run acts _ s hrun]; simp [TxCount.init]
+  have inv := inv_run acts _ s (inv_init threads) hat hrun
+  have hreg : (thOf t s.ths).reg = none := inv.noreg _ (thOf_mem t s.ths (by omega))
+  have he1 : enabled s (.enter t) = true := by
+    simp only [enabled, Bool.and_eq_true, decide_eq_true_eq, Bool.or_eq_true, Bool.not_eq_true']
+    exact ⟨by omega, Or.inr hin⟩
+  have hth : thOf t (TxCount.step s (.enter t)).ths = { thOf t s.ths with opened := (thOf t s.ths).opened + 1 } := by
+    simp only [TxCount.step]; exact thOf_setTh_same _ _ _ (by omega)
+  have he2 : enabled (TxCount.step s (.enter t)) (.leave t) = true := by
+    simp only [enabled, hth, length_step, Bool.and_eq_true, decide_eq_true_eq]
+    exact ⟨⟨by omega, by omega⟩, by simp [hreg]⟩
+  have hrun2 : ∀ (l : List Act) (s0 : TxCount.St), runChecked s0 l = some s →
+      runChecked s0 (l ++ [.enter t, .leave t]) = some (TxCount.step (TxCount.step s (.enter t)) (.leave t)) := by
+    intro l
+    induction l with
+    | nil =>
+      intro s0 h
+      simp only [runChecked, Option.some.injEq] at h
+      subst h
+      simp [runChecked, he1, he2]
+    | cons a r ih =>
+      intro s0 h
+      simp only [runChecked, List.cons_append] at h ⊢
+      by_cases he : enabled s0 a = true
+      · simp only [he, if_true] at h ⊢
+        exact ih _ h
+      · simp [he] at h
+  refine ⟨_, hrun2 acts _ hrun, ?_, ?_, ?_⟩
+  · intro u
+    have h1 := depth_step s (.enter t) u rfl he1
+    have h2 := depth_step (TxCount.step s (.enter t)) (.leave t) u rfl he2
+    rw [h2, h1]
+    by_cases hu : t = u <;> simp [opensFrom, hu]
+  · have hc1 : (TxCount.step s (.enter t)).counter = s.counter + 1 := by simp [TxCount.step]
+    have hc2 : (TxCount.step (TxCount.step s (.enter t)) (.leave t)).counter = (TxCount.step s (.enter t)).counter - 1 := by simp [TxCount.step]
+    omega
+  · simp [TxCount.step]
+
+/-- A thread that is inside a transaction never waits on a resize — in particular not on one it is
+itself blocking; who does wait (its `enter_tx` is not enabled) holds nothing, so it is not a
+blocker; and a blocked resize can always make progress: whenever a resize is pending and the
+counter is not 0, some thread is inside a transaction and both its next nested operation and its
+leave are enabled.  Hence the protocol with exact depth bookkeeping has no state in which a thread
+waits for itself. -/
+theorem holder_never_waits (threads : Nat) (acts : List Act) (s : TxCount.St)
+    (hat : ∀ a ∈ acts, a.atomic = true) (hrun : runChecked (TxCount.init threads) acts = some s) :
+    (∀ t, t < threads → 0 < depth s t → enabled s (.enter t) = true ∧ enabled s (.leave t) = true) ∧
+    (∀ t, t < threads → enabled s (.enter t) = false → depth s t = 0 ∧ s.resizing = true) ∧
+    (s.resizing = true → s.counter ≠ 0 →
+      ∃ t, t < threads ∧ 0 < depth s t ∧ enabled s (.enter t) = true ∧ enabled s (.leave t) = true) := by
+  have hlen : s.ths.length = threads := by
+    rw [length_run acts _ s hrun]; simp [TxCount.init]
+  have inv := inv_run acts _ s (inv_init threads) hat hrun
+  have hholder : ∀ t, t < threads → 0 < depth s t → enabled s (.enter t) = true ∧ enabled s (.leave t) = true := by
+    intro t ht hd
+    have hreg : (thOf t s.ths).reg = none := inv.noreg _ (thOf_mem t s.ths (by omega))
+    simp only [depth] at hd
+    simp only [enabled, hlen, Bool.and_eq_true, decide_eq_true_eq, Bool.or_eq_true, Bool.not_eq_true']
+    exact ⟨⟨ht, Or.inr hd⟩, ⟨ht, hd⟩, by simp [hreg]⟩
+  refine ⟨hholder, ?_, ?_⟩
+  · intro t ht he
+    simp only [enabled, hlen, ht, decide_true, Bool.true_and, Bool.or_eq_false_iff, Bool.not_eq_false',
+      decide_eq_false_iff_not, Nat.not_lt, Nat.le_zero] at he
+    exact ⟨he.2, he.1⟩
+  · intro _ hc
+    have hpos : 0 < total s.ths := by rw [← inv.count]; omega
+    obtain ⟨t, ht, hp⟩ := exists_pos_of_total_pos s.ths hpos
+    exact ⟨t, by omega, hp, hholder t (by omega) hp⟩
+
+/-- Kernel-checked witness of what inexact depth bookkeeping does: a thread opens an iterator,
+completes ONE lookup under it, and that lookup's leave forgets the nesting (drops the thread's
+entry instead of counting it down).  The thread still holds the iterator (counter 1) but counts
+as outside.  Another thread's `batch()` finds the map above the threshold and requests a resize:
+now every action of every thread is disabled — the holder's next lookup waits for the resize, the
+resize waits for the holder — for ever. -/
+theorem lost_nesting_witness :
+    runChecked (TxCount.init 2) [.enter 0, .enter 0, .leaveForget 0, .request] = some stuckState ∧
+    stuckState.counter = 1 ∧ depth stuckState 0 = 0 ∧ (∀ a, enabled stuckState a = false) ∧
+    (∃ s, runChecked (TxCount.init 2) [.enter 0, .enter 0, .leave 0, .request, .enter 0, .leave 0, .leave 0, .resize] = some s ∧
+      s.counter = 0 ∧ s.resizes = 1) := by
+  refine ⟨by decide, rfl, rfl, stuckState_dead,
+    ⟨{ counter := 0, resizing := false, resizes := 1, ths := [{}, {}] }, by decide, rfl, rfl⟩⟩
+
+/-- non-vacuity (the schedules of the harness cases `NestOther` and `NestSelf`): own iterator,
+lookups, the other thread's / the own `batch()` at the threshold, more lookups, iterator dropped,
+resize, the batch -/
+example : replay 2 [.enter 0, .enter 0, .leave 0, .enter 0, .leave 0, .request, .enter 0, .leave 0, .enter 0,
+      .enter 0, .leave 0, .leave 0, .leave 0, .resize, .enter 1, .leave 1] = "completed:resizes=1" ∧
+    replay 2 [.enter 0, .enter 0, .leave 0, .request, .enter 0, .enter 0, .leave 0, .leave 0, .enter 0, .leave 0,
+      .leave 0, .resize] = "completed:resizes=1" := by decide
+
+end nesting
 
 /-! ## no operation fails for lack of space — also with fragmented free space -/
 
